@@ -13,6 +13,7 @@ from hypothesis import strategies as st
 
 from vlib import env, jasm_io
 from vlib.elfw import make_elf
+from vlib.model import hexdigest
 from vlib.render import render
 from vlib.runner import Eval
 
@@ -145,6 +146,11 @@ def prepare(tier, seed):
     """Parent, before any shard: write the pool, compute baselines in fresh interpreters."""
     d = pool_dir(seed)
     shutil.rmtree(d, ignore_errors=True)
+    import atexit
+
+    parent = os.getpid()
+    # removed when the parent exits (after the runner has exported any failing history together with its files)
+    atexit.register(lambda: os.getpid() == parent and shutil.rmtree(d, ignore_errors=True))
     ops = build_pool(seed, d)
     with open(os.path.join(d, "pool.json"), "w") as f:
         json.dump(ops, f)
@@ -231,13 +237,81 @@ def nontrivial_steps(pool, h):
     return keys
 
 
+def _slurp(path):
+    import base64
+
+    try:
+        with open(path, "rb") as f:
+            return base64.b64encode(f.read()).decode()
+    except OSError:
+        return None  # an operation whose file is missing on purpose
+
+
+def export_case(case):
+    """Self-contained form of a history for replay files / the regression corpus: the operations travel with the
+    contents of their files; baselines are recomputed in fresh interpreters when the file is replayed."""
+    if "ops" in case and all("files" in o for o in case["ops"]):
+        return case
+    pool, _ = _load()
+    if "ops" in case:
+        pool = {o["id"]: o for o in case["ops"]}
+    used = sorted(set(case["history"]))
+    ops = []
+    for k in used:
+        o = dict(pool[k])
+        o["files"] = {"rule": _slurp(o["rule"]), "input": _slurp(o["input"]), "macros": [_slurp(m) for m in (o["macros"] or [])]}
+        ops.append(o)
+    return {"history": list(case["history"]), "ops": ops}
+
+
+def _materialise(case):
+    """Write the files of a self-contained case into a private directory; -> (pool dict, baselines dict)."""
+    import base64
+
+    sc = jasm_io.scratch()
+    d = os.path.join(sc.dir, "c14_replay_%d" % os.getpid())
+    shutil.rmtree(d, ignore_errors=True)
+    os.makedirs(d)
+    pool = {}
+    for o in case["ops"]:
+        o = dict(o)
+        f = o["files"]
+
+        def put(name, b64, orig):
+            # operations that shared a file keep sharing it (a path-keyed cache only shows then)
+            p = os.path.join(d, "%s_%s" % (hexdigest(orig)[:8], os.path.basename(orig)))
+            if b64 is not None and not os.path.exists(p):
+                with open(p, "wb") as fh:
+                    fh.write(base64.b64decode(b64))
+            return p
+
+        o["rule"] = put("rule", f["rule"], o["rule"])
+        o["input"] = put("input", f["input"], o["input"])
+        o["macros"] = [put(f"m{i}", b, orig) for i, (b, orig) in enumerate(zip(f["macros"], o["macros"] or []))] or None
+        del o["files"]
+        pool[o["id"]] = o
+    ids = sorted(pool)
+    with open(os.path.join(d, "pool.json"), "w") as fh:
+        json.dump([pool[k] for k in ids], fh)
+    base = {}
+    procs = [(k, subprocess.Popen([sys.executable, "-m", "props.c14_histories", "--one", d, str(n)], cwd=env.VERIF, stdout=subprocess.PIPE,
+                                  stderr=subprocess.DEVNULL, env=dict(os.environ, PYTHONHASHSEED="0"), text=True)) for n, k in enumerate(ids)]
+    for k, p in procs:
+        out, _ = p.communicate(timeout=300)
+        base[k] = json.loads(out.strip().splitlines()[-1])
+    return pool, base
+
+
 def evaluate(case):
     ev = Eval()
-    pool, base = _load()
     h = case["history"]
-    if "ops" in case:  # a replay file carries the operations themselves
+    if "ops" in case and all("files" in o for o in case["ops"]):  # a replay / corpus file: self-contained
+        pool, base = _materialise(case)
+    elif "ops" in case:  # same-run pair case (files still in the pool directory)
         pool = {o["id"]: o for o in case["ops"]}
         base = {int(k): v for k, v in case["baselines"].items()}
+    else:
+        pool, base = _load()
     outs = run_history_in_child([pool[k] for k in h])
     ev.subcases = len(h)
     if outs and outs[0][0] == "harness-error":
@@ -308,10 +382,9 @@ def extra(tier, seed, rep):
         if (a, b) in seen:
             continue
         seen.add((a, b))
-        case = {"history": [a, b], "ops": [pool[a], pool[b]], "baselines": {str(a): base[a], str(b): base[b]}}
+        case = export_case({"history": [a, b]})
         dev = {"kind": "history-dependent-result", "pair": [pool[a]["name"], pool[b]["name"]], "expected_as_first_in_fresh_process": _short(base[b]), "observed": _short(got)}
         rep.violations.append((case, dev))
-    shutil.rmtree(d, ignore_errors=True)
 
 
 if __name__ == "__main__":
